@@ -3,7 +3,7 @@ import random
 from tools import vlib, t3
 
 MODULE = "PropC04"
-THEOREMS = ["C04_code_conforms", "C04_tasks_are_zip", "C04_emitted_exactly_once", "C04_complete", "C04_deterministic", "C04_zip_equation", "C04_reference_evaluator_zips", "C04_nonvacuous"]
+THEOREMS = ["C04_code_conforms", "C04_tasks_are_zip", "C04_emitted_exactly_once", "C04_complete", "C04_deterministic", "C04_zip_equation", "C04_reference_evaluator_zips", "C04_port_merge", "C04_port_closes_with_last", "C04_port_complete", "C04_port_progress", "C04_nonvacuous"]
 
 
 def special_shapes(rng, i):
@@ -79,11 +79,11 @@ def case(args):
     if getattr(sp, "force_yield", False):
         # the schedule matters here: several delay seeds for the same workflow
         for k in range(6):
-            r = t3.success_case(sp, yield_seed=(ys[0] + k, rng.choice([50, 300, 1000])), gomaxprocs=gmp, replays=("net", "tasks"))
+            r = t3.success_case(sp, yield_seed=(ys[0] + k, rng.choice([50, 300, 1000])), gomaxprocs=gmp, replays=("net", "tasks", "port"))
             if r["problems"]:
                 break
         return r
-    return t3.success_case(sp, yield_seed=ys, gomaxprocs=gmp, replays=("net", "tasks"))
+    return t3.success_case(sp, yield_seed=ys, gomaxprocs=gmp, replays=("net", "tasks", "port"))
 
 
 def run(rep, tier, seed):
